@@ -1,7 +1,7 @@
 #!/bin/bash
 # tools/evalall.sh <Cxx> [tier] [extra props…]: evaluate /tmp/wt/Cxx/mutants/m* against the check of Cxx
 ID=$1; TIER=${2:-quick}; shift; shift
-for m in /tmp/wt/$ID/mutants/m*; do
+for m in ${WT:-/tmp/wt}/$ID/mutants/m*; do
   [ -f "$m/patch.diff" ] || continue
   echo "=== $ID $(basename $m): $(head -c 200 $m/notes.md | tr '\n' ' ' | cut -c1-160)"
   /verif/tools/evalmutant.sh "$m" "$TIER" "$ID" "$@" 2>&1 | grep -v '^$'
